@@ -21,7 +21,8 @@ def run(tier, seed):
                            {"cfg": "MC_DistHeader_noseg", "result": "counterexample to Resolved (reader keyed by index only), as expected"}]
     # (a) encoder side
     cp = os.path.join(lib.outdir(PID), "cases.ndjson")
-    r = lib.tlc("gen/Gen_DistHeader.tla", f"gen/Gen_DistHeader_{size}.cfg", PID, "gen", workers=1, env={"MODE": "cases", "OUT": cp, "OUT_LOCAL": os.path.join(lib.outdir(PID), "local_cases.ndjson")})
+    r = lib.tlc("gen/Gen_DistHeader.tla", f"gen/Gen_DistHeader_{size}.cfg", PID, "gen", workers=1, env={"MODE": "cases", "OUT": cp, "OUT_LOCAL": os.path.join(lib.outdir(PID), "local_cases.ndjson"),
+                                                                                                      "OUT_FILL": os.path.join(lib.outdir(PID), "fill_chain.ndjson")})
     edges = r.printed()
     if r.rc != 0 or not edges:
         raise lib.ToolError("DistHeader generator failed")
@@ -89,6 +90,22 @@ def run(tier, seed):
             v.violation("a cached-atom reference resolved to a different atom than the sender meant", {**case, "resolved": E.short(got["terms"], 300)})
         elif n % 1500 == 1:
             v.sample({"history_len": len(o["path"]), "message_bytes": o["act"]["bytes"][:40]})
+    # (c) one long history that fills the receiver's cache completely (8 segments x 256 entries), replayed message by message
+    chain = lib.read_ndjson(os.path.join(lib.outdir(PID), "fill_chain.ndjson"))
+    cedges = [{"from": {"filled_by_messages": c["n"] - 1}, "to": {"filled_by_messages": c["n"]}, "act": {"bytes": c["bytes"], "nterms": len(c["terms"])}, "retA": c["terms"], "retI": []} for c in chain]
+    cp_ = os.path.join(lib.outdir(PID), "fill_edges.ndjson")
+    co_ = os.path.join(lib.outdir(PID), "fill_obs.ndjson")
+    lib.write_ndjson(cp_, cedges)
+    lib.harness(["dh-edges", cp_, co_])
+    for o in lib.read_ndjson(co_):
+        n += 1
+        v.case("fill" + json.dumps(o["model_from"]))
+        exp, got = o["retA"], o["obs_ret"]
+        case = {"history": "message %d of a sender that fills all 2048 cache slots (200 new entries per message, earlier entries re-used)" % o["model_to"]["filled_by_messages"], "message_bytes_head": o["act"]["bytes"][:40]}
+        if "terms" not in got:
+            v.violation("a header from a conforming sender was rejected" + (" (panic)" if "panic" in got else ""), {**case, "obs": got})
+        elif len(got["terms"]) != len(exp) or not all(lib.same_value(a, b) for a, b in zip(got["terms"], exp)):
+            v.violation("a cached-atom reference resolved to a different atom than the sender meant", {**case, "resolved": E.short(got["terms"], 200)})
     v.cov["traces_validated_against_impl"] = n
     v.cov["encoder_cases"] = len(cases)
     v.cov["exhaustive"] = True
